@@ -934,7 +934,7 @@ fn degenerate_suite(run: &mut Run, rng: &mut Rng) {
     }
     run.count_n("emd-percent-triangle-triples", (k * k * k) as u64);
     // ---------- Learned histograms: Metric::emd, Sinkhorn (plan + band) and the greedy plan
-    for (mname, street) in [("line", Street::Turn), ("discrete", Street::Flop), ("one-far-pair", Street::Flop), ("all-zero", Street::Turn)] {
+    for (mname, street) in [("line", Street::Turn), ("discrete", Street::Flop), ("one-far-pair", Street::Flop), ("all-zero", Street::Turn), ("all-tiny", Street::Flop)] {
         let uni: Vec<Abstraction> = (0..12).map(|i| Abstraction::from((street, i * 7 + 1))).collect();
         let mut raw = BTreeMap::new();
         for i in 0..12usize {
@@ -944,6 +944,8 @@ fn degenerate_suite(run: &mut Run, rng: &mut Rng) {
                     "discrete" => 1.0,
                     // every centroid coincides: the normalisation divides by max(MIN_POSITIVE, 0), all distances stay 0
                     "all-zero" => 0.0,
+                    // near-duplicate centroids: all distances positive and far below f32::EPSILON; still scaled to max 1
+                    "all-tiny" => 1e-9 * (1 + i + j) as f32,
                     _ => if (i, j) == (11, 0) { 1.0 } else { 1e-5 * (1.0 + (i + j) as f32) },
                 };
                 raw.insert(Pair::from((&uni[i], &uni[j])), dist);
